@@ -364,7 +364,8 @@ impl VariablesState {
                 _ => false,
             },
             ValueType::Float(val) => match default_val.value {
-                ValueType::Float(default_val) => *val == default_val,
+                // Bitwise: -0.0 and 0.0 compare equal with `==` but print differently.
+                ValueType::Float(default_val) => val.to_bits() == default_val.to_bits(),
                 _ => false,
             },
             ValueType::List(val) => match &default_val.value {
